@@ -162,7 +162,19 @@ def run(ctx):
             concrete += 1
     ctx.log("%d solution files parsed strictly and compared with the solutions they were written from" % files)
     # the binary: same path solved twice, the second structure smaller
-    big, small = G.gen_portal(rng), G.gen_beam(rng)
+    # two structures that both solve; the second solution must be the shorter text (what a missing
+    # truncation would leave behind shows then)
+    big = small = None
+    for _ in range(12):
+        a, b = G.gen_portal(rng), G.gen_beam(rng)
+        ra = cli.run(ctx, ["solve", "x.inkfem"], files={"x.inkfem": a.text()}, name="c11s")
+        rb = cli.run(ctx, ["solve", "x.inkfem"], files={"x.inkfem": b.text()}, name="c11s")
+        la, lb = ra.files.get("x.inkfemsol"), rb.files.get("x.inkfemsol")
+        if ra.status == 0 and rb.status == 0 and la and lb and len(la) != len(lb):
+            big, small = (a, b) if len(la) > len(lb) else (b, a)
+            break
+    if big is None:
+        big, small = G.gen_portal(rng), G.gen_beam(rng)
     log, fs = C12.cli_history(ctx, [["solve", "x.inkfem"], ("write", "x.inkfem", small.text()), ["solve", "x.inkfem"]], {"x.inkfem": big.text()}, name="c11h")
     codes = [e[1] for e in log if e[0] != "write"]
     if codes == [0, 0]:
